@@ -313,6 +313,7 @@ class Comparison(ABC):
     def __init__(self, ebpf):
         self.ebpf = ebpf
         self.else_origin = None
+        self.else_jump = True
 
     def __enter__(self):
         if self.else_origin is None:
@@ -323,10 +324,11 @@ class Comparison(ABC):
         if self.else_origin is None:
             self.target()
             return
-        assert self.ebpf.opcodes[self.else_origin] is None
-        self.ebpf.opcodes[self.else_origin] = Instruction(
-                Opcode.JMP, 0, 0,
-                len(self.ebpf.opcodes) - self.else_origin - 1, 0)
+        if self.else_jump:
+            assert self.ebpf.opcodes[self.else_origin] is None
+            self.ebpf.opcodes[self.else_origin] = Instruction(
+                    Opcode.JMP, 0, 0,
+                    len(self.ebpf.opcodes) - self.else_origin - 1, 0)
         self.ebpf.owners, self.owners = \
                 self.ebpf.owners & self.owners, self.ebpf.owners
 
@@ -354,6 +356,12 @@ class Comparison(ABC):
         self.else_origin = len(self.ebpf.opcodes)
         self.ebpf.opcodes.append(None)
         self.target(True)
+        if not self.ebpf.reachable(self.else_origin):
+            # nothing gets past an exit: the jump over the Else block
+            # would be unreachable code, which the kernel refuses
+            self.else_jump = False
+            self.ebpf.opcodes.pop()
+            self.target(True)
         return self
 
     def __and__(self, value):
@@ -820,9 +828,14 @@ class AndComparison(SimpleComparison):
                     self.ebpf.opcodes[self.else_origin+1:]
             del self.ebpf.opcodes[olen-1:]
             op, dst, src, off, imm = self.ebpf.opcodes[self.invert - 1]
+            off = len(self.ebpf.opcodes) - self.else_origin + 1
             self.ebpf.opcodes[self.invert - 1] = \
-                    Instruction(op, dst, src,
-                                len(self.ebpf.opcodes) - self.else_origin + 1, imm)
+                    Instruction(op, dst, src, off, imm)
+            if not self.ebpf.reachable(self.invert + off - 1):
+                # the Else block, now in front, ended in an exit
+                del self.ebpf.opcodes[self.invert + off - 1]
+                self.ebpf.opcodes[self.invert - 1] = \
+                        Instruction(op, dst, src, off - 1, imm)
 
     def Else(self):
         op, dst, src, off, imm = self.ebpf.opcodes[self.origin]
@@ -833,6 +846,12 @@ class AndComparison(SimpleComparison):
                 Instruction(op, dst, src, off+1, imm)
         self.else_origin = len(self.ebpf.opcodes)
         self.ebpf.opcodes.append(None)
+        if self.invert is None \
+                and not self.ebpf.reachable(self.else_origin):
+            self.else_jump = False
+            self.ebpf.opcodes.pop()
+            self.ebpf.opcodes[self.origin] = \
+                Instruction(op, dst, src, off, imm)
         return self
 
 class Constant(Expression):
@@ -1530,6 +1549,16 @@ class EBPF(EBPFBase):
         if no is not None:
             self.r0 = no.value
         self.append(Opcode.EXIT, 0, 0, 0, 0)
+
+    def reachable(self, pos):
+        """whether the code issued so far can get to position `pos`"""
+        last = self.opcodes[pos - 1] if pos else None
+        if last is None or last.opcode != Opcode.EXIT:
+            return True
+        return any(i is not None and i.opcode.value & 7 in (5, 6)
+                   and i.opcode.value not in (0x85, 0x95)
+                   and n + 1 + i.off == pos
+                   for n, i in enumerate(self.opcodes))
 
     @contextmanager
     def get_free_register(self, dst, first=0):
